@@ -88,6 +88,9 @@ func GenContent(t *rapid.T, label string, o GenOpts) Content {
 			return Content{{Src: -1 - c, Len: n}}
 		}
 		return Content{{Src: 0, Len: n}}
+	case k == 3:
+		// a small alphabet: matches of every length everywhere
+		return Content{{Src: 1000 + rapid.IntRange(0, 8).Draw(t, label+"-small-alphabet"), Len: n}}
 	case k <= 2:
 		p := rapid.SampledFrom([]int{1, 2, 3, 7, 64, 4096, BS, BS + 1}).Draw(t, label+"-period")
 		if p == 1 && o.ConstCap > 0 && n > o.ConstCap {
